@@ -190,6 +190,7 @@ func tryPartial(env Env, nodes []ast.IsNode,
 ) (ast.IsNode, error) {
 	var values []types.Value
 	ok := true
+	nestedIgnore := false
 	orig := slices.Clone(nodes)
 	for i, n := range nodes {
 		n, err := partial(env, n)
@@ -204,6 +205,10 @@ func tryPartial(env Env, nodes []ast.IsNode,
 			// usable as an operand below, but a value with an unknown nested inside must
 			// not be frozen into a residual: keep the original operand
 			nodes[i] = orig[i]
+		} else if vok && containsIgnore(v.Value) {
+			// nor must a value with an ignored value nested inside: if the node cannot be
+			// decided now, it is ignored as a whole
+			nestedIgnore = true
 		}
 		if !ok {
 			continue
@@ -228,6 +233,9 @@ func tryPartial(env Env, nodes []ast.IsNode,
 			return nil, errIgnore
 		}
 		return ast.NodeValue{Value: v}, nil
+	}
+	if nestedIgnore {
+		return nil, errIgnore
 	}
 	return mkNode(nodes), nil
 }
